@@ -14,12 +14,12 @@ register("C03", ["c03", "phase_gate", "hazards", "pins"],
          ["EngineInterface::set_state is durable and atomic (trusted interface)", "&mut self exclusivity of the replica state machine (Rust borrow rules)"],
          TRUSTED)
 
-register("C05", ["c05", "phase_gate", "hazards", "pins"],
+register("C05", ["c05", "c05x", "phase_gate", "hazards", "pins"],
          "Static guard-table analysis by finite abstraction: for each decision of the replica (certificate adoption, stale-message gates, new-view catch-up, leader check) atoms are declared on types and field names (cmp(msg.view, self.view), held certificate None/Some, cmp of certificate views, self.phase) and for every valuation the CFG of the handler (MIR-as-built) is walked following only consistent edges; the set of valuations reaching the adoption/processing/vote site is compared with the table stated in the property and spec/informal-spec/replica.rs. Plus exact who-may-write sets of the five view-change fields and term checks on emitted justifications. Conformance of every reaction in every reachable state is not decided.",
          ["certificates passed to process_*_qc were verified by the caller (C04.9)", "&mut self exclusivity of the replica"],
          TRUSTED)
 
-register("C08", ["c08", "hazards", "pins"],
+register("C08", ["c08", "c08x", "hazards", "pins"],
          "Static who-may-call / must-pass-through / guard-table analysis of the block store: the only door into the store (BlockStore::try_push, one caller, executed inside the watch's send_if_modified closure) is dominated per Block variant by the successful verification of that very block; the store's fields, constructor and watch mutations have exact caller sets; try_push appends only the next number; update_persisted never shrinks the persisted range and resets queue+cache together; eviction, the single storage writer's selection term, the peer-block number check and the get_block gate are decided as tables/terms on the current MIR. Read-back under arbitrary interleavings with the persistence layer is not decided.",
          ["the EngineInterface implementation stores what it is handed (trusted interface)", "watch::send_if_modified runs its closure under the watch lock (tokio documentation)"],
          TRUSTED)
